@@ -206,6 +206,14 @@ if HAVE_CAMB:
                     "If using CAMB, the CMB temperature must be set explicitly in the cosmology."
                 )
 
+            self._set_camb_cosmology()
+
+            if self.params["extrapolate_with_eh"]:
+                # Create an EH transfer to extrapolate to at high k.
+                self._eh = EH(self.cosmo)
+
+        def _set_camb_cosmology(self):
+            """Transfer the cosmology to the CAMBparams object."""
             self.params["camb_params"].set_cosmology(
                 H0=self.cosmo.H0.value,
                 ombh2=self.cosmo.Ob0 * self.cosmo.h ** 2,
@@ -223,10 +231,6 @@ if HAVE_CAMB:
             # Set the DE equation of state. We only support constant w.
             if isinstance(self.cosmo, cosmology.wCDM):
                 self.params["camb_params"].set_dark_energy(w=self.cosmo.w0)
-
-            if self.params["extrapolate_with_eh"]:
-                # Create an EH transfer to extrapolate to at high k.
-                self._eh = EH(self.cosmo)
 
         def lnt(self, lnk):
             r"""
@@ -361,7 +365,10 @@ if HAVE_CAMB:
                 if key != "params":
                     this[key] = deepcopy(val)
 
-            this["params"] = {"camb_params": dct}
+            this["params"] = {
+                k: deepcopy(v) for k, v in self.params.items() if k != "camb_params"
+            }
+            this["params"]["camb_params"] = dct
 
             return this
 
@@ -369,6 +376,8 @@ if HAVE_CAMB:
             self.__dict__ = state
 
             self.params["camb_params"] = camb.CAMBparams(**self.params["camb_params"])
+            # The neutrino mass arrays cannot be saved, so re-derive them from the cosmology.
+            self._set_camb_cosmology()
 
 
 class FromArray(FromFile):
